@@ -478,9 +478,12 @@ def client_family(sim):
     task = sim.spawn(run, "client-program")
     try:
         # every single step has to finish within the bound: poll
+        last_events, last_change = sim.nevents, sim.now
         while task.state != core.DONE:
             sim.join_task(task, 1.0)
-            if task.state != core.DONE and cur["name"] is not None and sim.now - cur["t0"] > T_CALL + 25.0:
+            if sim.nevents != last_events:
+                last_events, last_change = sim.nevents, sim.now     # packets still flow: slow is not stuck
+            if task.state != core.DONE and cur["name"] is not None and sim.now - max(cur["t0"], last_change) > T_CALL + 10.0:
                 raise Violation(("C30", "client-call-never-returns", cur["name"].split(" ")[0],
                                  core.where_parked(task)),
                                 "client step %d (%s) has been blocked for %.0f virtual seconds although the server answers "
